@@ -72,10 +72,12 @@ Definition wf_upgrade (v : bytes) (r : bytes) (security : bytes) : Prop :=
     hget k_upgrade h = upgrade_token v /\
     security = hget k_security h.
 
-(* StartTLS is not requested and the session keeps the carrier's security,
+(* StartTLS is not requested, the server does not demand a client certificate it could only get through StartTLS, and the session keeps
+   the carrier's security,
    or it is requested, the server can do it (insecure carrier, certificate) and the TLS handshake succeeds *)
 Definition starttls_consistent (tls_ok : bool) (c : cfg) (security : bytes) (secure : bool) (t : tech) : Prop :=
-  (to_upper security <> wd "STARTTLS" /\ secure = c_secure c /\ t = carrier_tech (c_secure c)) \/
+  (to_upper security <> wd "STARTTLS" /\ negb (c_secure c) && c_cert c && c_reqcc c = false /\
+   secure = c_secure c /\ t = carrier_tech (c_secure c)) \/
   (to_upper security = wd "STARTTLS" /\ c_secure c = false /\ c_cert c = true /\ tls_ok = true /\
    secure = true /\ t = TechTls).
 
